@@ -131,6 +131,7 @@ def toOp (l : Line) : Option Op :=
   | "rb" => some (.rb c k (names l))
   | "lastcas" => some (.lastCas c)
   | "keys" => some (.keys c)
+  | "draw" => some .draw
   | _ => none
 
 /-! ### Printing -/
@@ -188,7 +189,7 @@ def fmtResp (l : Line) (resp : Resp) : String :=
     | "add" => s!"{r} added={o.added}"
     | "wcas" | "remove" | "updx" | "wwx" | "wtx" | "wrx" | "uxdb" => s!"{r} cas={o.cas}{actualS o}"
     | "wsd" => s!"{r} cas={o.cas}{actualS o}"
-    | "touch" | "setx" => s!"{r} cas={o.cas}"
+    | "touch" | "setx" | "draw" => s!"{r} cas={o.cas}"
     | "gat" => s!"{r} cas={o.cas} v{optS o.val}"
     | "incr" => s!"{r} n={if o.err = .ok then o.n else 0}"
     | "rmx" | "swm" | "dwm" | "sdi" => s!"{r}{actualS o}"
